@@ -6,28 +6,42 @@ PH = "{B}"
 CONFIG = {
     "design_ref": "4.19",
     "technique": "Lean 4 proof over an executable model of LocalLoader::{check,new,ctype,get} + abstract POSIX file system "
-                 "(retry list / ctype table / presence of the confinement guard regenerated from resource/src/loader/_local.rs); "
-                 "differential vs the real LocalLoader::get and Resource::get_resource on a real sandbox directory tree",
+                 "(retry list / ctype table / presence of the confinement guard regenerated from resource/src/loader/_local.rs; "
+                 "every file-system call site of the crate regenerated from resource/src) + model of get_resource / "
+                 "Resource::get_neighbour / the JSON-LD context loader of get_graph; differential vs the real LocalLoader::get, "
+                 "every link-following entry point of Resource (Turtle, N-Triples documents) and remote JSON-LD contexts on a "
+                 "real sandbox directory tree",
     "level_text": "Proof (all configurations, file systems, IRIs, recursion depths; lexical path semantics, symlinks excluded): "
-                  "the full confinement statement is REFUTED for the code as written by kernel-checked witnesses "
-                  "(ns+'../secret.ttl', ns+'/abs/path'); proved: confinement under the decidable side condition 'remainder has no .. "
-                  "component and does not start with /' including the extension retry loop, percent-escapes are literal names, the "
-                  "repaired get (notes/fixes/C19-confine.diff) is confined outright, depth-1 recursion = unbounded recursion. "
+                  "the full confinement statement holds for the code now in /repo (confined_current / confined_files: bytes "
+                  "returned are the content of a file below the directory of a pair whose namespace prefixes the IRI), closed "
+                  "over the regenerated guard flag (guard_present fails if the guard disappears from /repo); the same for IRIs "
+                  "followed from loaded data (link_confined: get_neighbour) and remote JSON-LD contexts (ctx_confined); "
+                  "reads_only_in_get pins the regenerated list of file-system call sites of the crate to the one read in get; "
+                  "the statement is REFUTED for the unguarded text by kernel-checked witnesses (ns+'../secret.ttl', "
+                  "ns+'/abs/path'); confinement under the decidable side condition 'remainder has no .. component and does not "
+                  "start with /' incl. the extension retry loop for any guard setting; percent-escapes are literal names; "
+                  "depth-1 recursion = unbounded recursion. "
                   "Differential (not proof): model = real LocalLoader::get on every generated (configuration, IRI) over a sandbox; "
-                  "links followed by Resource::get_resource give the same file as get on the IRI found in the data.",
+                  "model getNeighbour = what Resource::{get_resource,get_any_resource,get_all_resources,get_resource_items,"
+                  "pred_resource} read for IRIs planted verbatim in N-Triples documents; links in Turtle documents and remote "
+                  "JSON-LD contexts (string/array/@import/scoped) are checked against the oracle and against get on the same IRI.",
     "level_note": "Trusted: the abstract file system (open walks components, ENOENT/ENOTDIR/EISDIR/ENAMETOOLONG, no symlinks, no "
                   "permissions) and PathBuf::join unix semantics as transcribed in Model/Loader.lean, both exercised by the "
                   "differential on ext4; tools/extractors/c19.py. Invalid IRIs (backslash, space) hit debug assertions of "
-                  "Iri::new_unchecked inside get on its error paths: only their successful reads are compared. Known findings: "
-                  "two escape mechanisms ('..' component, absolute remainder).",
-    "tables": ["loader_exts"],
+                  "Iri::new_unchecked inside get on its error paths: only their successful reads are compared. Which IRIs the "
+                  "JSON-LD processor requests for a context reference is observed (recording wrapper), not modelled. Symbolic "
+                  "links are exercised (y requests) and reported, not judged, except links that stay inside the directory. "
+                  "Fixed finding (3c4bf6e): two escape mechanisms ('..' component, absolute remainder).",
+    "tables": ["loader_exts", "loader_sites"],
     "lean_targets": ["SophiaProofs.Props.C19", "SophiaProofs.Audit.C19"],
     "theorems": ["read_reads_resolved", "new_ok_cfg", "getG_opened", "confined_partial", "retry_confined",
-                 "confined_repaired", "confined_current", "escape_dotdot", "escape_absolute", "escape_retry",
+                 "confined_repaired", "confined_of_guard", "guard_present", "confined_current", "current_status",
+                 "unguarded_refuted", "confined_files", "link_confined", "ctx_confined", "reads_only_in_get",
+                 "escape_dotdot", "escape_absolute", "escape_retry",
                  "confined_refuted", "repaired_rejects_witnesses", "pct_not_decoded", "fuel_irrelevant"],
     "native_ok": [],
     # trivial = nothing was read: configuration rejected, no namespace matched, nothing found, debug-assert panic
-    "trivial_re": r"^new=(slash|abs|dir)|res=unsupported|res=notfound|dbgpanic=1|doc=(unsupported|notfound|io|parse|cantguess)|link=none",
+    "trivial_re": r"^new=(slash|abs|dir)|res=unsupported|res=notfound|res=novalue|dbgpanic=1|doc=(unsupported|notfound|io|parse|cantguess)|link=none|sym=(unsupported|notfound)",
     "rule": "configurations = 0-5 (namespace, directory) pairs drawn from a pool with nested/overlapping namespaces, nested, "
             "non-normalised and trailing-slash directories, invalid pairs; IRIs = fixed corpus of the quantifier's shapes, "
             "'directed' shapes (for every sandbox file, served or secret, and every configured pair: the lexical relative path "
@@ -39,8 +53,11 @@ CONFIG = {
             "distinct = distinct request lines",
     "trusted_base": ["abstract POSIX file system + PathBuf::join semantics in lean/SophiaModel/Model/Loader.lean (symlinks, "
                      "permissions, non-UTF-8 names excluded)",
-                     "tools/extractors/c19.py (retry list, ctype table, guard recognition; fail-closed)",
-                     "harness oracle: bytes->file by unique content, std::fs::canonicalize of the configured directories"],
+                     "tools/extractors/c19.py (retry list, ctype table, structural guard recognition, file-system call sites "
+                     "of resource/src; fail-closed)",
+                     "harness oracle: bytes->file by unique content (marker triple / marker JSON-LD context term), "
+                     "std::fs::canonicalize of the configured directories; recording Loader wrapper for the IRIs requested by "
+                     "the JSON-LD processor"],
     "assumptions": ["no symbolic links under or above the configured directories (lexical resolution = OS resolution)",
                     "unix path semantics (Component::Prefix never occurs)",
                     "sophia_resource built with features jsonld+xml (checked per case through the content type)"],
